@@ -192,4 +192,345 @@ theorem Inv_payload {v ks m r} (h : Inv v ks m r) (pl : Payload) :
         rw [hk, hr]
         constructor <;> simp [cnt_snoc, Metrics.payload, Metrics.insertFailed, *] <;> omega
 
+/-! ### counters never decrease -/
+
+/-- `b` is at least `a` in every metric exported with type Counter except `announced`
+    (`rib_unit_num_routes_announced`, which the code decrements), in the two gate counters, and in the
+    `items` gauge (it could only go down through `RoutesRemoved`, which no call site builds). -/
+structure Mono (a b : Metrics) : Prop where
+  up : a.uniquePrefixes ≤ b.uniquePrefixes
+  it : a.items ≤ b.items
+  rt : a.insertRetries ≤ b.insertRetries
+  hf : a.hardFailures ≤ b.hardFailures
+  md : a.modified ≤ b.modified
+  wd : a.withdrawn ≤ b.withdrawn
+  na : a.wdNoAnn ≤ b.wdNoAnn
+  gu : a.gUpdates ≤ b.gUpdates
+  gd : a.gDropped ≤ b.gDropped
+
+theorem Mono_refl (a : Metrics) : Mono a a := by constructor <;> exact Nat.le_refl _
+
+theorem Mono_trans {a b c : Metrics} (h1 : Mono a b) (h2 : Mono b c) : Mono a c := by
+  have ⟨a1, a2, a3, a4, a5, a6, a7, a8, a9⟩ := h1
+  have ⟨b1, b2, b3, b4, b5, b6, b7, b8, b9⟩ := h2
+  constructor <;> omega
+
+/-- One payload event, whatever the store reported and in both variants. -/
+theorem Mono_payload (v : MVariant) (m : Metrics) (rep : Report) (pl : Payload) : Mono m (m.payload v rep pl) := by
+  cases rep with
+  | failed => constructor <;> simp [Metrics.payload, Metrics.insertFailed]
+  | ok pn =>
+    cases hst : pl.status <;> cases hw : v.wdEffectFix <;> cases pn <;>
+      constructor <;> simp [Metrics.payload, Metrics.insertOk, Metrics.effect, hst, hw] <;> omega
+
+theorem Mono_gate (m : Metrics) (u : Update) : Mono m (m.gate u) := by
+  cases u <;> constructor <;> simp [Metrics.gate]
+
+theorem Mono_foldl_gate (us : List Update) (m : Metrics) : Mono m (us.foldl Metrics.gate m) := by
+  induction us generalizing m with
+  | nil => exact Mono_refl m
+  | cons u us ih => exact Mono_trans (Mono_gate m u) (ih _)
+
+theorem Mono_payloads (v : MVariant) (ps : List Payload) (s : St) : Mono s.mx (ps.foldl (St.payload v) s).mx := by
+  induction ps generalizing s with
+  | nil => exact Mono_refl _
+  | cons p ps ih => exact Mono_trans (Mono_payload v s.mx (report s.rib p) p) (ih (St.payload v s p))
+
+/-- One `process_update`. -/
+theorem Mono_apply (rv : Rotonda.Rib.Variant) (v : MVariant) (s : St) (u : Update) : Mono s.mx (St.apply rv v s u).mx := by
+  have key : ∀ s' : St, Mono s.mx s'.mx → Mono s.mx ((Rib.forwards u).foldl Metrics.gate s'.mx) :=
+    fun s' h => Mono_trans h (Mono_foldl_gate _ _)
+  cases u with
+  | single p => exact key (St.payload v s p) (Mono_payload v s.mx _ p)
+  | bulk ps => exact key (ps.foldl (St.payload v) s) (Mono_payloads v ps s)
+  | withdraw m af => exact key ⟨s.rib.apply rv (.withdraw m af), s.mx⟩ (Mono_refl _)
+  | withdrawBulk ms => exact key ⟨s.rib.apply rv (.withdrawBulk ms), s.mx⟩ (Mono_refl _)
+  | endOfStream => exact key ⟨s.rib, s.mx⟩ (Mono_refl _)
+  | outputStream => exact key ⟨s.rib, s.mx⟩ (Mono_refl _)
+  | queryResult => exact key ⟨s.rib, s.mx⟩ (Mono_refl _)
+
+theorem Mono_runFrom (rv : Rotonda.Rib.Variant) (v : MVariant) (us : List Update) (s : St) :
+    Mono s.mx (St.runFrom rv v s us).mx := by
+  induction us generalizing s with
+  | nil => exact Mono_refl _
+  | cons u us ih => exact Mono_trans (Mono_apply rv v s u) (ih (St.apply rv v s u))
+
+/-! ### durations: the class of every sample is the variant's -/
+
+theorem mem_upsert_cases {κ β} [DecidableEq κ] (k : κ) (b : β) (l : List (κ × β)) (x : κ × β)
+    (h : x ∈ upsert k b l) : x = (k, b) ∨ x ∈ l := by
+  induction l with
+  | nil => simpa [upsert] using h
+  | cons e l ih =>
+    simp only [upsert] at h
+    split at h
+    · rcases List.mem_cons.mp h with h | h
+      · exact .inl h
+      · exact .inr (List.mem_cons_of_mem _ h)
+    · rcases List.mem_cons.mp h with h | h
+      · exact .inr (h ▸ List.mem_cons_self)
+      · rcases ih h with h | h
+        · exact .inl h
+        · exact .inr (List.mem_cons_of_mem _ h)
+
+/-- Every per-ingress sample, and the stored insert duration, carry the class of the variant:
+    `false` = the value is 0 whatever the delay, `true` = it reflects the payload's age. -/
+structure Dur (v : MVariant) (m : Metrics) : Prop where
+  e2e : ∀ x ∈ m.e2e, x.2 = v.durationFix
+  ins : m.insertDurSet = true → v.durationFix = true
+
+theorem Dur_empty (v : MVariant) : Dur v Metrics.empty := ⟨by simp [Metrics.empty], by simp [Metrics.empty]⟩
+
+theorem effect_e2e (m : Metrics) (e : Effect) :
+    (m.effect e).e2e = m.e2e ∧ (m.effect e).insertDurSet = m.insertDurSet := by
+  cases e with
+  | routesWithdrawn n => cases n <;> exact ⟨rfl, rfl⟩
+  | routesRemoved n => cases n <;> exact ⟨rfl, rfl⟩
+  | routeAdded => exact ⟨rfl, rfl⟩
+  | routeUpdated => exact ⟨rfl, rfl⟩
+
+theorem Dur_insertOk {v : MVariant} {m : Metrics} (h : Dur v m) (ing : Mui) (n : Nat) (e : Effect) :
+    Dur v (m.insertOk v ing n e) := by
+  unfold Metrics.insertOk
+  constructor
+  · intro x hx
+    rw [(effect_e2e _ e).1] at hx
+    rcases mem_upsert_cases _ _ _ _ hx with hx | hx
+    · rw [hx]
+    · exact h.e2e x hx
+  · intro hx
+    rw [(effect_e2e _ e).2] at hx
+    exact hx
+
+theorem Dur_payload {v : MVariant} {m : Metrics} (h : Dur v m) (rep : Report) (pl : Payload) :
+    Dur v (m.payload v rep pl) := by
+  cases rep with
+  | failed => exact ⟨h.e2e, h.ins⟩
+  | ok pn =>
+    cases hst : pl.status
+    · have e : m.payload v (.ok pn) pl = m.insertOk v pl.mui 0 (if pn then .routeAdded else .routeUpdated) := by
+        simp only [Metrics.payload, hst]
+      rw [e]; exact Dur_insertOk h _ _ _
+    · cases hw : v.wdEffectFix
+      · have e : m.payload v (.ok pn) pl = (m.insertOk v pl.mui 0 (if pn then .routeAdded else .routeUpdated)).insertOk
+            v pl.mui 0 (.routesWithdrawn 1) := by
+          simp only [Metrics.payload, hst, hw, Bool.false_eq_true, if_false]
+        rw [e]; exact Dur_insertOk (Dur_insertOk h _ _ _) _ _ _
+      · have e : m.payload v (.ok pn) pl = m.insertOk v pl.mui 0 (.routesWithdrawn 1) := by
+          simp only [Metrics.payload, hst, hw, if_true]
+        rw [e]; exact Dur_insertOk h _ _ _
+
+theorem Dur_core {v : MVariant} {m m' : Metrics} (h : Dur v m) (hc : core m' = core m) : Dur v m' := by
+  have e1 : m'.e2e = m.e2e := by have := congrArg Metrics.e2e hc; exact this
+  have e2 : m'.insertDurSet = m.insertDurSet := by have := congrArg Metrics.insertDurSet hc; exact this
+  exact ⟨e1 ▸ h.e2e, e2 ▸ h.ins⟩
+
+theorem Dur_payloads {v : MVariant} (ps : List Payload) {s : St} (h : Dur v s.mx) :
+    Dur v (ps.foldl (St.payload v) s).mx := by
+  induction ps generalizing s with
+  | nil => exact h
+  | cons p ps ih => exact ih (s := St.payload v s p) (Dur_payload h _ p)
+
+theorem Dur_apply (rv : Rotonda.Rib.Variant) {v : MVariant} {s : St} (h : Dur v s.mx) (u : Update) :
+    Dur v (St.apply rv v s u).mx := by
+  have key : ∀ s' : St, Dur v s'.mx → Dur v ((Rib.forwards u).foldl Metrics.gate s'.mx) :=
+    fun s' h' => Dur_core h' (core_foldl_gate _ _)
+  cases u with
+  | single p => exact key (St.payload v s p) (Dur_payload h _ p)
+  | bulk ps => exact key (ps.foldl (St.payload v) s) (Dur_payloads ps h)
+  | withdraw m af => exact key ⟨s.rib.apply rv (.withdraw m af), s.mx⟩ h
+  | withdrawBulk ms => exact key ⟨s.rib.apply rv (.withdrawBulk ms), s.mx⟩ h
+  | endOfStream => exact key ⟨s.rib, s.mx⟩ h
+  | outputStream => exact key ⟨s.rib, s.mx⟩ h
+  | queryResult => exact key ⟨s.rib, s.mx⟩ h
+
+theorem Dur_runFrom (rv : Rotonda.Rib.Variant) {v : MVariant} (us : List Update) {s : St} (h : Dur v s.mx) :
+    Dur v (St.runFrom rv v s us).mx := by
+  induction us generalizing s with
+  | nil => exact h
+  | cons u us ih => exact ih (s := St.apply rv v s u) (Dur_apply rv h u)
+
+/-! ### slots and records: which prefixes `unique_prefixes` counts -/
+
+/-- Slots are listed once, and a prefix with a record has a slot. -/
+def PInvS (s : Store) : Prop := s.known.Nodup ∧ ∀ p, hasRec s p = true → p ∈ s.known
+
+/-- Every slot holds at least one record. -/
+def FullS (s : Store) : Prop := ∀ p ∈ s.known, hasRec s p = true
+
+theorem hasRec_insert (s : Store) (p : Prefix) (m : Mui) (st : Status) (a : AttrId) (q : Prefix) :
+    hasRec (s.insert p m st a) q = (hasRec s q || decide (p = q)) := by
+  rw [hasRec_keys, hasRec_keys]
+  exact any_keys_upsert (p, m) (st, a) s.recs q
+
+theorem hasRec_markWithdrawn (s : Store) (p : Prefix) (m : Mui) (q : Prefix) :
+    hasRec (s.markWithdrawnForPrefix p m).1 q = hasRec s q := by
+  rw [hasRec_keys, hasRec_keys]
+  unfold Store.markWithdrawnForPrefix
+  split
+  · simp only [keysOf, keys_modify]
+  · rfl
+
+theorem PInv_insert {s : Store} (h : PInvS s) (p : Prefix) (m : Mui) (st : Status) (a : AttrId) :
+    PInvS (s.insert p m st a) := by
+  constructor
+  · simp only [Store.insert]
+    split
+    · exact h.1
+    · next hp => exact List.nodup_cons.mpr ⟨hp, h.1⟩
+  · intro q hq
+    rw [hasRec_insert, Bool.or_eq_true, decide_eq_true_eq] at hq
+    simp only [Store.insert]
+    rcases hq with hq | hq
+    · split
+      · exact h.2 q hq
+      · exact List.mem_cons_of_mem _ (h.2 q hq)
+    · subst hq
+      split
+      · next hp => exact hp
+      · exact List.mem_cons_self
+
+theorem Full_insert {s : Store} (h : FullS s) (p : Prefix) (m : Mui) (st : Status) (a : AttrId) :
+    FullS (s.insert p m st a) := by
+  intro q hq
+  rw [hasRec_insert, Bool.or_eq_true, decide_eq_true_eq]
+  simp only [Store.insert] at hq
+  split at hq
+  · exact .inl (h q hq)
+  · rcases List.mem_cons.mp hq with hq | hq
+    · exact .inr hq.symm
+    · exact .inl (h q hq)
+
+theorem PInv_markWithdrawn {s : Store} (h : PInvS s) (p : Prefix) (m : Mui) :
+    PInvS (s.markWithdrawnForPrefix p m).1 := by
+  constructor
+  · unfold Store.markWithdrawnForPrefix
+    split
+    · exact h.1
+    · next hp => exact List.nodup_cons.mpr ⟨hp, h.1⟩
+  · intro q hq
+    rw [hasRec_markWithdrawn] at hq
+    have := h.2 q hq
+    unfold Store.markWithdrawnForPrefix
+    split
+    · exact this
+    · exact List.mem_cons_of_mem _ this
+
+/-- A withdrawal for a prefix that has a slot keeps "every slot holds a record". (One for a prefix
+    without a slot creates an empty slot: that is the blind withdrawal.) -/
+theorem Full_markWithdrawn_known {s : Store} (h : FullS s) (p : Prefix) (m : Mui) (hp : p ∈ s.known) :
+    FullS (s.markWithdrawnForPrefix p m).1 := by
+  intro q hq
+  rw [hasRec_markWithdrawn]
+  apply h q
+  unfold Store.markWithdrawnForPrefix at hq
+  simpa [hp] using hq
+
+/-- The slot invariant of both tables after the payload events classified `ks`; "every slot holds a
+    record" as long as none of them was a blind withdrawal. -/
+structure RP (ks : List Kind) (r : Rib) : Prop where
+  pu : PInvS r.unicast
+  pm : PInvS r.multicast
+  full : cnt .blindWithdraw ks = 0 → FullS r.unicast ∧ FullS r.multicast
+
+theorem RP_empty : RP [] Rib.empty := by
+  refine ⟨⟨?_, ?_⟩, ⟨?_, ?_⟩, fun _ => ⟨?_, ?_⟩⟩ <;> simp [Rib.empty, hasRec, FullS]
+
+theorem PInvS_congr {s s' : Store} (hk : keysOf s' = keysOf s) (hn : s'.known = s.known) (h : PInvS s) : PInvS s' := by
+  unfold PInvS
+  rw [hn]
+  refine ⟨h.1, fun p hp => h.2 p ?_⟩
+  rw [hasRec_keys] at hp ⊢
+  rw [← hk]; exact hp
+
+theorem FullS_congr {s s' : Store} (hk : keysOf s' = keysOf s) (hn : s'.known = s.known) (h : FullS s) : FullS s' := by
+  intro p hp
+  rw [hn] at hp
+  have := h p hp
+  rw [hasRec_keys] at this ⊢
+  rw [hk]; exact this
+
+/-- The invariant only reads slots and record keys. -/
+theorem RP_of_shape {ks : List Kind} {r r' : Rib} (hs : shape r' = shape r) (h : RP ks r) : RP ks r' := by
+  simp only [shape, Prod.mk.injEq] at hs
+  obtain ⟨⟨ku, nu⟩, ⟨km, nm⟩⟩ := hs
+  exact ⟨PInvS_congr ku nu h.pu, PInvS_congr km nm h.pm,
+    fun h0 => ⟨FullS_congr ku nu (h.full h0).1, FullS_congr km nm (h.full h0).2⟩⟩
+
+/-- Replace the store of table `mc`. -/
+theorem RP_setStore {ks ks' : List Kind} {r : Rib} (mc : Bool) (s' : Store) (h : RP ks r)
+    (hp : PInvS (r.store mc) → PInvS s')
+    (hf : cnt .blindWithdraw ks' = 0 → cnt .blindWithdraw ks = 0 ∧ (FullS (r.store mc) → FullS s')) :
+    RP ks' (r.setStore mc s') := by
+  cases mc
+  · exact ⟨hp h.pu, h.pm, fun h0 => ⟨(hf h0).2 (h.full (hf h0).1).1, (h.full (hf h0).1).2⟩⟩
+  · exact ⟨h.pu, hp h.pm, fun h0 => ⟨(h.full (hf h0).1).1, (hf h0).2 (h.full (hf h0).1).2⟩⟩
+
+/-- One payload event (C01's `insertPayload`). -/
+theorem RP_insertPayload {ks : List Kind} {r : Rib} (h : RP ks r) (pl : Payload) :
+    RP (ks ++ [kind r pl]) (r.insertPayload pl) := by
+  by_cases hc : pl.ctx = .reprocess
+  · have hk : kind r pl = .reprocess := by simp [kind, hc]
+    have hrib : r.insertPayload pl = r := by simp [Rib.insertPayload, hc]
+    rw [hk, hrib]
+    exact ⟨h.pu, h.pm, fun h0 => h.full (by simpa [cnt_snoc] using h0)⟩
+  · have hins : r.insertPayload pl = r.insertPrefix pl.route.pfx pl.route.mc pl.mui pl.status pl.route.attrs := by
+      cases hx : pl.ctx <;> simp_all [Rib.insertPayload]
+    rw [hins]
+    unfold Rib.insertPrefix
+    cases hst : pl.status
+    · -- announcement: record and slot
+      refine RP_setStore _ _ h (fun hp => PInv_insert hp _ _ _ _) (fun h0 => ?_)
+      rw [cnt_snoc] at h0
+      exact ⟨by omega, fun hf => Full_insert hf _ _ _ _⟩
+    · by_cases hkn : pl.route.pfx ∈ (r.store pl.route.mc).known
+      · have hk : kind r pl = .withdraw := by cases hx : pl.ctx <;> simp_all [kind]
+        rw [hk]
+        refine RP_setStore _ _ h (fun hp => PInv_markWithdrawn hp _ _) (fun h0 => ?_)
+        exact ⟨by simpa [cnt_snoc] using h0, fun hf => Full_markWithdrawn_known hf _ _ hkn⟩
+      · have hk : kind r pl = .blindWithdraw := by cases hx : pl.ctx <;> simp_all [kind]
+        rw [hk]
+        refine RP_setStore _ _ h (fun hp => PInv_markWithdrawn hp _ _) (fun h0 => ?_)
+        simp [cnt_snoc] at h0
+
+theorem RP_payloads (ps : List Payload) {ks : List Kind} {r : Rib} (h : RP ks r) :
+    RP (ks ++ kindsP r ps) (ps.foldl Rib.insertPayload r) := by
+  induction ps generalizing ks r with
+  | nil => simpa [kindsP] using h
+  | cons p ps ih =>
+    have := ih (RP_insertPayload h p)
+    simpa [kindsP, List.append_assoc] using this
+
+/-- One `process_update` (C01's `Rib.apply`). -/
+theorem RP_apply (rv : Rotonda.Rib.Variant) {ks : List Kind} {r : Rib} (h : RP ks r) (u : Update) :
+    RP (ks ++ kindsP r (payloadsOf u)) (r.apply rv u) := by
+  cases u with
+  | single p => simpa [payloadsOf, kindsP, Rib.apply] using RP_insertPayload h p
+  | bulk ps => simpa [payloadsOf, Rib.apply] using RP_payloads ps h
+  | withdraw m af =>
+    simpa [payloadsOf, kindsP] using RP_of_shape (shape_apply_nonpayload rv r (.withdraw m af) rfl) h
+  | withdrawBulk ms =>
+    simpa [payloadsOf, kindsP] using RP_of_shape (shape_apply_nonpayload rv r (.withdrawBulk ms) rfl) h
+  | endOfStream => simpa [payloadsOf, kindsP, Rib.apply] using h
+  | outputStream => simpa [payloadsOf, kindsP, Rib.apply] using h
+  | queryResult => simpa [payloadsOf, kindsP, Rib.apply] using h
+
+/-- Any history of updates (C01's `Rib.applyAll`). -/
+theorem RP_applyAll (rv : Rotonda.Rib.Variant) (us : List Update) {ks : List Kind} {r : Rib} (h : RP ks r) :
+    RP (ks ++ kindsFrom rv r us) (Rib.applyAll rv r us) := by
+  induction us generalizing ks r with
+  | nil => simpa [kindsFrom, Rib.applyAll] using h
+  | cons u us ih =>
+    have := ih (RP_apply rv h u)
+    simpa [kindsFrom, Rib.applyAll, List.append_assoc] using this
+
+/-- With the slot invariant and every slot holding a record, the slots enumerate exactly the
+    prefixes with a record. -/
+theorem counts_of_full {s : Store} (hp : PInvS s) (hf : FullS s) : CountsPrefixes s s.known.length :=
+  ⟨s.known, hp.1, fun p => ⟨hf p, hp.2 p⟩, rfl⟩
+
+theorem cnt_zero_of_noKind {k : Kind} {ks : List Kind} (h : noKind k ks = true) : cnt k ks = 0 := by
+  simp only [noKind, Bool.not_eq_true', List.contains_eq_mem, decide_eq_false_iff_not] at h
+  exact List.count_eq_zero.mpr h
+
 end Rotonda.RibMetrics
